@@ -43,16 +43,23 @@ ASSUMPTIONS = [
 ]
 TRUSTED = []
 MANIFEST = dict(
-    text="Machine-checked theorems (Coq 8.16.1) about an executable Gallina model of Pattern.group / PtnCombo.combinations / "
-         "PtnFilter*.create / the two templates, for all note sets, windows, jack settings, sizes and filter arrays: grouping is a partition "
-         "(multiset of rows), every group lies in the vertical and horizontal window of its first note and has no repeated column when jacks "
-         "are avoided; the reported combinations are exactly the filtered cartesian product of each n consecutive groups for the column and "
-         "type filters, REFUTED for the chord-size filter (numpy element-wise `in`; witness in Coq, replayed on the code) and proved under the "
-         "guard that excludes it; characterisations of every constructor option. The model is tied to the code on every run by in-Coq "
-         "correspondence on generated cases, step by step along the implementation's own states, plus the oracle on implementation outputs.",
-    note="Known finding chord-filter-elementwise-any (PtnFilterChord.filter). Domain guard: columns and filter rows within 0..keys-1 when a "
-         "column filter is used (hash collisions otherwise), filter width = combination size. Trusted: Coq kernel+VM, harness "
-         "generator/serialiser; times scaled to Z; theorems are 'Closed under the global context'.",
+    text="Machine-checked theorems (Coq 8.16.1, 28 statements in Props/C20.v) about an executable Gallina model of Pattern.__init__/"
+         "from_note_lists, Pattern.group, PtnCombo.combinations, PtnFilter{Combo,Chord,Type}.create and the two templates, for ALL note "
+         "sets, windows v >= 0, h in {None,0,1,..}, both jack settings, sizes >= 2, make_size2 and filter arrays: grouping is a partition "
+         "(multiset of rows), every group lies in the vertical and horizontal window of its first note and has no repeated column when "
+         "jacks are avoided; combinations() returns exactly (multiset, both inclusions) the filtered cartesian products of each n "
+         "consecutive groups for every column and type filter (np.meshgrid order proved a permutation of the product; base-keys hash "
+         "proved injective on 0..keys-1); for the chord-size filter the statement is REFUTED (numpy element-wise `in`; witness proved in "
+         "Coq and replayed on the code as corpus case), characterised exactly, and proved under the guard excluding the defect and for "
+         "the repaired test; every constructor option (REPEAT/HMIRROR/VMIRROR/AND_LOWER/AND_HIGHER/ANY_ORDER/MIRROR, np.unique) is "
+         "characterised as a set of rows. The boolean oracles are proved to decide the specification. The model is tied to the code on "
+         "every run by in-Coq correspondence on ~1200 generated cases (thorough: 24000 + exhaustive small scope), step by step along the "
+         "implementation's own states (df, groups, filter arrays, combinations), plus the oracle on implementation outputs.",
+    note="Known finding chord-filter-elementwise-any (PtnFilterChord.filter; also reached through template_chord_stream). Domain guards: "
+         "size >= 2, filter width = combination size, columns and filter rows within 0..keys-1 when a column filter is used (hash "
+         "collisions otherwise). The two templates are checked by their own oracle and by correspondence on every run, not by a for-all "
+         "theorem. bisect is modelled by its meaning on a sorted list (sortedness checked per case). Trusted: Coq kernel+VM, harness "
+         "generator/serialiser; times scaled to Z; all theorems 'Closed under the global context'.",
     technique="Coq proof over executable model + vm_compute correspondence against the implementation",
     design="4/C20")
 
@@ -86,13 +93,16 @@ def _times(rng):
     return step, base, span
 
 
-def _gen_notes(rng, keys):
+def _gen_notes(rng, keys, narrow=False):
     step, base, span = _times(rng)
     n = rng.choice([0, 1, 2, 3, 4, 5, 6, 6, 7, 8, 8, 9, 10, 12])
     bad_col = rng.random() < 0.06
+    few = rng.sample(range(keys), min(keys, rng.choice([1, 2, 2])))
     def col():
         if bad_col and rng.random() < 0.3:
             return rng.choice([-1, keys, keys + 2, -3])
+        if narrow:
+            return rng.choice(few)
         if rng.random() < 0.3:
             return rng.randrange(min(keys, 2))
         return rng.randrange(keys)
@@ -230,10 +240,12 @@ def _gen_req(rng, keys):
 
 def _gen_pipe(rng):
     keys = rng.choice([4, 4, 5, 6, 7]) if rng.random() < 0.9 else rng.choice([1, 2, 3, 8])
-    init, step = _gen_notes(rng, keys)
+    req = _gen_req(rng, keys)
+    # jacks need repeated columns in consecutive groups (and tails among them): few distinct columns
+    init, step = _gen_notes(rng, keys, narrow=bool(req) and req["t"] == "jacks" and rng.random() < 0.7)
     v, h, aj = _gen_window(rng, step, keys)
     return {"kind": "pipe", "init": init, "v": F.frac_json(v), "h": h, "aj": aj, "vfloat": rng.random() < 0.5,
-            "req": _gen_req(rng, keys)}
+            "req": req}
 
 
 def _gen_create(rng):
@@ -282,7 +294,7 @@ def _exhaustive(budget):
 
 
 def generate(rng, tier):
-    n = 420 if tier == "quick" else 9000
+    n = 1200 if tier == "quick" else 24000
     cases = []
     for i in range(n):
         cases.append(_gen_create(rng) if rng.random() < 0.3 else _gen_pipe(rng))
@@ -644,7 +656,7 @@ def _in_domain(case, out):
     cols = [r[0] for g in out["groups"] for r in g]
     if req["t"] == "combos":
         n, fl = req["size"], out.get("filters") or {}
-        if n < 1:
+        if n < 2:
             return False
         for f in (fl.get("chord"), fl.get("combo"), fl.get("type")):
             if f and (f["w"] != n or any(len(r) != n for r in f["ar"])):
